@@ -409,6 +409,23 @@ func run(id, tier string, seed uint64, jobs int, keep bool) int {
 	if floor != "" {
 		cov["coverage_floor_unmet"] = floor
 	}
+	if id == "C14" {
+		// the decoder must share no code with gkvlite: record (and enforce) its import closure
+		lc := exec.Command("go", "list", "-deps", "./internal/decoder")
+		lc.Dir = verifDir
+		lc.Env = goEnv()
+		if out, err := lc.Output(); err == nil {
+			deps := strings.Fields(string(out))
+			cov["decoder_import_closure"] = deps
+			for _, d := range deps {
+				if strings.Contains(d, "gkvlite") {
+					inconc = append(inconc, "the independent decoder imports "+d)
+					cov["inconclusive"] = inconc
+					floor = "decoder is not independent of gkvlite"
+				}
+			}
+		}
+	}
 	if len(samples) == 0 {
 		cov["samples"] = []interface{}{"(no sample recorded)"}
 	}
